@@ -1333,6 +1333,10 @@ def run_stream(ctx, bt, n_direct, n_pipes, corr_name, kinds=None):
 
 def run(ctx, bt):
     run_stream(ctx, bt, ctx.scale(6000, 100000), ctx.scale(120, 1500), "select")
+    # selection sequences (SelectAll / SelectThese / SelectHasData / SelectMomentum) inside complete backtests: the model evaluates
+    # them on its own universe table (price columns up to the current row, sub-strategy indices) and trades what they select
+    from .. import whole_run as W
+    W.whole_run_protocol(ctx, bt, ctx.scale(30, 600), "whole-run-x[C14]:selection-sequences", extended=True)
     # the framework starts the failing-input search only when there is no violation at all; the listed known
     # findings are always present here, so start it ourselves when every violation so far is a listed one
     if ctx.disagreements and ctx.violations:
